@@ -2,6 +2,7 @@
   C05 — margin account invariant and NLV decomposition.
 -/
 import TradingVerif.Lemmas.Valuation
+import TradingVerif.Lemmas.Settled
 set_option linter.unusedSectionVars false
 set_option linter.unusedVariables false
 set_option linter.unusedSimpArgs false
@@ -56,35 +57,18 @@ theorem margin_flat_zero (w : World K) (b : Broker K) (k : Key) (hmr : (w.spec k
 /-- **A flat position holds no margin after a mark, whether or not the contract is quoted** (repair F11: the
     settlement of a closing trade is returned to cash even when no liquidation price is available) -/
 theorem flat_margin_zero_after_mark (w : World K) (D : K) (k : Key) (b : Broker K) (h : Inv w D b)
-    (h0 : b.pos k = 0) : (mark1 w k b).margin k = 0 := by
-  by_cases hmr : (w.spec k).mr = 0
-  · have : mark1 w k b = b := by unfold mark1; simp [hmr]
-    rw [this]; exact h.spot0 k hmr
-  · rcases mark1_cases w k b with e | ⟨p, lp, _, _, _, e⟩ | ⟨_, _, _, e⟩
-    · -- nothing done: a price without a last mark means the contract was never traded
-      rw [e]
-      unfold mark1 at e
-      simp only [hmr, if_false] at e
-      by_cases hk : k ∈ b.held
-      · -- traded before: a last mark exists, so `mark1` acted unless no price ... but then the flat branch acted
-        cases hq : liqPrice b k (b.pos k) with
-        | none =>
-            rw [hq] at e
-            simp only [h0, if_true] at e
-            have := congrArg (fun x => x.margin k) e
-            simp only [upd_same] at this
-            exact this.symm
-        | some p =>
-            cases hl : b.lastMark k with
-            | none => exact absurd hl (h.marked k hk)
-            | some lp =>
-                rw [hq, hl] at e
-                have := congrArg (fun x => x.margin k) e
-                simp only [upd_same, h0] at this
-                rw [← this]; simp [absv]
-      · exact (h.fresh k hk).2.1
-    · rw [e]; simp only [upd_same, h0]; simp [absv]
-    · rw [e]; simp only [upd_same]
+    (h0 : b.pos k = 0) : (mark1 w k b).margin k = 0 :=
+  mark1_flat_margin w D k b h h0
+
+/-- **At every valuation, after any history, every flat position holds no margin** - held, closed, quoted or
+    not: the account-wide mark that `net_liquidation_value` performs returns whatever a closing trade left in
+    the margin account to cash. -/
+theorem flat_margin_zero_at_valuation (pw : K → K → K) (w : World K) (D : K) (hw : ∀ k, WFSpec (w.spec k))
+    (ops : List (Op K)) (hs : (runOps pw w (Broker.init D) ops).snapped = false) (k : Key)
+    (h0 : (runOps pw w (Broker.init D) ops).pos k = 0) :
+    (netLiq w false (runOps pw w (Broker.init D) ops)).1.margin k = 0 := by
+  rw [netLiq_fst]
+  exact markAll_flat_margin w D _ (runOps_inv pw w D hw ops _ (inv_init w D) hs) k h0
 
 /-- contracts without a margin requirement hold no margin, in every reachable state -/
 theorem spot_margin_zero (pw : K → K → K) (w : World K) (D : K) (hw : ∀ k, WFSpec (w.spec k))
@@ -156,6 +140,15 @@ theorem nlv_decomposition (pw : K → K → K) (w : World K) (D : K) (hw : ∀ k
     nlvMarked w b = .ok (b.cash + sumL (b.held.map b.margin) +
       sumL (b.held.map fun k => if (w.spec k).mr = 0 then (w.spec k).mult * b.pos k * liqv b k else 0)) :=
   nlv_decomposition_inv w D hw _ (runOps_inv pw w D hw ops _ (inv_init w D) hs) hq
+
+/-- **NLV decomposition when only the open positions are quoted** (flat contracts may have lost their quotes) -/
+theorem nlv_decomposition_open (pw : K → K → K) (w : World K) (D : K) (hw : ∀ k, WFSpec (w.spec k))
+    (ops : List (Op K)) (hs : (runOps pw w (Broker.init D) ops).snapped = false)
+    (hq : OpenQuoted (runOps pw w (Broker.init D) ops)) :
+    let b := markAll w (runOps pw w (Broker.init D) ops)
+    nlvMarked w b = .ok (b.cash + sumL (b.held.map b.margin) +
+      sumL (b.held.map fun k => if (w.spec k).mr = 0 then (w.spec k).mult * b.pos k * liqv b k else 0)) :=
+  nlv_decomposition_open_inv w D hw _ (runOps_inv pw w D hw ops _ (inv_init w D) hs) hq
 
 /-- one term of `holdings_values('notional')` -/
 theorem notional_def (w : World K) (b : Broker K) (k : Key) (p : K) (h0 : b.pos k ≠ 0)
